@@ -4,7 +4,7 @@ import common, ceremony
 from ceremony import *
 
 PROP = "C04"
-COQ_TARGETS = ceremony.COQ_TARGETS
+COQ_TARGETS = ceremony.COQ_TARGETS + ceremony.WCOQ_TARGETS
 HARNESS_BINS = ceremony.HARNESS_BINS
 replay = ceremony.replay
 
@@ -95,6 +95,65 @@ def non_disclosure(scenarios, outs):
     return fails
 
 
+def client_uv(run):
+    """the WebAuthn entry points (anchor passkey-client/src/lib.rs): userVerification required / preferred / discouraged x
+    verification capability None / Some(false) / Some(true) x what the validation step reports, for register and
+    authenticate.  Judged on the observation alone: a request that requires verification on an authenticator whose
+    verification is absent or unconfigured returns an error and leaves the store untouched; a ceremony succeeds only with
+    the consent its requirement demands and its UV / UP bits are what the validation step reported."""
+    rng = run.rng
+    cid = bytes([0x3C]) * 16
+    content = [mk_passkey(rng, "example.com", cred_id=cid, counter=2, keyidx=0)]
+    scs = []
+    for uvreq in ("required", "preferred", "discouraged"):
+        for verif in (None, False, True):
+            for ans in ({"presence": True, "verification": True}, {"presence": True, "verification": False}, {"presence": False, "verification": True},
+                        {"presence": False, "verification": False}):
+                for kind in ("ref", "memory"):
+                    ops = [reg_op(rng, selection={"rk": "discouraged", "require_rk": False, "uv": uvreq}), auth_op(rng, allow=[cid], uv=uvreq)]
+                    scs.append(client_scenario(store_kind=kind, content=content, config={"counter": True},
+                                               user={"verif_enabled": verif, "presence_enabled": True, "script": [ans, ans]}, ops=ops))
+    binary = common.harness_build("ceremony")
+    outs = ceremony.run_scenarios(binary, scs)
+    fails = []
+    for sc, out in zip(scs, outs):
+        if "ops" not in out:
+            fails.append((sc, out, "the client ceremony crashed the process")); continue
+        before = sc["store"]["content"]
+        verif = sc["user"]["verif_enabled"]
+        for op, obs in zip(sc["ops"], out["ops"]):
+            res = obs["result"]
+            uvreq = (op["req"].get("selection") or {}).get("uv") if op["op"] == "register" else op["req"]["uv"]
+            ans = sc["user"]["script"][0]
+            mutated = [e for e in obs["log"] if e["c"] in ("save", "update") and "ok" in e["r"]]
+            canon = lambda l: sorted(json.dumps(p, sort_keys=True) for p in l)
+            why = None
+            if uvreq == "required" and verif is not True:
+                if "ok" in res: why = "userVerification=required on an authenticator whose verification is %s, yet the ceremony succeeded" % verif
+                elif mutated or canon(obs["store_after"]) != canon(before): why = "userVerification=required on an authenticator that cannot verify: the store was touched"
+            if "ok" in res and why is None:
+                flags = bytes.fromhex(res["ok"]["auth_data"])[32]
+                if not ans["presence"]: why = "the ceremony succeeded although the validation step did not report presence"
+                elif uvreq == "required" and not ans["verification"]: why = "verification was required but not reported, yet the ceremony succeeded"
+                elif bool(flags & 1) != ans["presence"] or bool(flags & 4) != ans["verification"]:
+                    why = "UP/UV bits %s/%s differ from what the validation step reported (%s)" % (bool(flags & 1), bool(flags & 4), ans)
+            if "err" in res and why is None and (mutated or canon(obs["store_after"]) != canon(before)):
+                why = "the ceremony returned an error but the store was touched"
+            if why:
+                fails.append((sc, obs, why))
+            before = obs["store_after"]
+    for sc, obs, why in fails[:3]:
+        run.violation({"kind": "client level: " + why, "scenario": sc, "observed": obs})
+    # the same observations against the client model (tie)
+    flat = [x for x in ceremony.wcases_of(scs, outs) if x[4] is not None]
+    res = common.coq_eval(PROP + "-client", ceremony.WPREAMBLE, [t for *_, t in flat], ["wagree"], shard=60)
+    if not fails and res["wagree"]:
+        si, oi, op, obs, t = flat[res["wagree"][0]]
+        run.violation({"kind": "client model and implementation disagree; the client-level consent oracle is true on all %d observations" % len(flat),
+                       "broken": "correspondence ceremony/%s (Auth.ClientCheck.wagree)" % op["op"], "scenario": scs[si], "observed": obs}, found_input=False)
+    run.cov["client_level"] = {"scenarios": len(scs), "operations": len(flat), "oracle_failures": len(fails), "model_disagreements": len(res["wagree"])}
+
+
 def check(run):
     scenarios, meta = product(run)
     s2, m2 = several_matching(run)
@@ -106,4 +165,6 @@ def check(run):
              "x user answer (4 presence/verification results, 2 errors) x pin-auth x matching credential present/absent x store kind; plus assertions with 2-3 matching credentials (allow list in "
              "every rotation / absent / empty) where the credential shown for consent and the signing key (independent ECDSA check) are compared",
         assumptions=["U2F operations have no consent step by design (presence is a caller-supplied argument): not quantified over here"])
+    common.coq_build(ceremony.WCOQ_TARGETS)
+    client_uv(run)
     run.cov["exhaustive"] = True
